@@ -6,6 +6,8 @@ import GoCrypt.Props.KdfIR
 import GoCrypt.Props.ParseFlow
 import GoCrypt.Props.B64IRNoPanic
 import GoCrypt.Props.KdfIR2
+import GoCrypt.Props.MiscIR
+import GoCrypt.Props.DesIR
 
 /-!
 # C05 — no input makes an exported function panic or hang
@@ -64,4 +66,14 @@ namespace GoCrypt.C05
 #print axioms GoCrypt.KdfIR2.nthash_key_tail_ir_eq_derive
 #print axioms GoCrypt.KdfIR2.nthash_encodePassword_ir_eq_model
 #print axioms GoCrypt.KdfIR2.bcrypt_key_tail_ir_eq_derive
+-- hashutil.Rand / cryptoutil.Rand / randRounds as regenerated panic only when the entropy source fails; Decode/IndexAnyInvalid/Encode never do
+#print axioms GoCrypt.MiscIR.rand_ir_eq_model
+#print axioms GoCrypt.MiscIR.encode_ir_eq_model
+#print axioms GoCrypt.MiscIR.decode_ir_eq_table
+#print axioms GoCrypt.MiscIR.indexAnyInvalid_ir_eq_model
+#print axioms GoCrypt.MiscIR.cryptoutil_rand_ir_eq_model
+#print axioms GoCrypt.MiscIR.randRounds_ir_eq_model
+-- the regenerated DES core returns for every key, block, salt and round count (no table index out of range)
+#print axioms GoCrypt.DesIRProps.encrypt_ir_eq_model
+#print axioms GoCrypt.DesIRProps.keySchedules_ir_eq_model
 end GoCrypt.C05
